@@ -156,7 +156,7 @@ def check_data_multi(ctx, rng):
     judged by every caller's own validator."""
     for fe in ('v2', 'v1'):
         verdicts = V2_VERDICTS[:5] if fe == 'v2' else V1_VERDICTS
-        for rep in range(ctx.n(40, 1500)):
+        for rep in range(ctx.n(40, 100000)):
             k = rng.randint(2, 4)
             specs = []
             for j in range(k):
